@@ -33,6 +33,7 @@ class Ent:
         self.renameable = renameable
         self.extended = extended
         self.finding = None      # entity-level finding family (two_libraries)
+        self.ovl = False         # parameter of an overloaded subprogram called with named association
         self.focus = False       # alias / item named in a by-item use clause (sampled in every quick run)
         self.cross = False       # entity-declarative-part item referenced from other files (always sampled)
         self.occs = []
@@ -438,6 +439,29 @@ def gen_project(seed, idx, family=None):
     rj_s = P.ent("rjs", "signal")
     t_rej = P.ent("t_rej", "constant")
     locf = P.ent("loc", "function")
+    # overload families called with NAMED association (body-only subprograms): the formal in `f(arg => x)` belongs to
+    # the parameter of the overload the call resolves to
+    ov_n, ov2_n, ov3_n = P.fresh_name("conv"), P.fresh_name("sel"), P.fresh_name("mix")
+    ovp_n, ov2p_n, ov3p_n, ov3r_n = P.fresh_name("arg"), P.fresh_name("opnd"), P.fresh_name("q"), P.fresh_name("r")
+    ov_i = P.ent("conv", "function", name=ov_n)          # differ by return type only, identical parameter name
+    ov_b = P.ent("conv", "function", name=ov_n)
+    ov_ip = P.ent("arg", "parameter", name=ovp_n)
+    ov_bp = P.ent("arg", "parameter", name=ovp_n)
+    ov2_i = P.ent("sel", "function", name=ov2_n)         # differ by one parameter type
+    ov2_b = P.ent("sel", "function", name=ov2_n)
+    ov2_ip = P.ent("opnd", "parameter", name=ov2p_n)
+    ov2_bp = P.ent("opnd", "parameter", name=ov2p_n)
+    ov3_a = P.ent("mix", "function", name=ov3_n)         # arity with a default / second parameter type
+    ov3_b = P.ent("mix", "function", name=ov3_n)
+    ov3_aq = P.ent("q", "parameter", name=ov3p_n)
+    ov3_ar = P.ent("r", "parameter", name=ov3r_n)
+    ov3_bq = P.ent("q", "parameter", name=ov3p_n)
+    ov3_br = P.ent("r", "parameter", name=ov3r_n)
+    ov_si = P.ent("ovi", "signal")
+    ov_sb = P.ent("ovb", "signal")
+    p_ov = P.ent("p_ov", "label")
+    for x_ in (ov_ip, ov_bp, ov2_ip, ov2_bp, ov3_aq, ov3_ar, ov3_bq, ov3_br):
+        x_.ovl = True
     bus8 = P.ent("bus", "signal")
     a_lo = P.ent("a_lo", "alias")
     a_b0 = P.ent("a_b0", "alias")
@@ -587,6 +611,35 @@ def gen_project(seed, idx, family=None):
     ln("  begin")
     ln("    return ", r(locp), " + ", r(e_c), ";")
     ln("  end function ", e(locf), ";")
+    ln("  function ", d(ov_i), " (", d(ov_ip), " : integer) return integer is")
+    ln("  begin")
+    ln("    return ", r(ov_ip), " + 1;")
+    ln("  end function ", e(ov_i), ";")
+    ln("  function ", d(ov_b), " (", d(ov_bp), " : integer) return bit is")
+    ln("  begin")
+    ln("    if ", r(ov_bp), " > 0 then return '1'; end if;")
+    ln("    return '0';")
+    ln("  end function ", e(ov_b), ";")
+    ln("  function ", d(ov2_i), " (", d(ov2_ip), " : integer) return integer is")
+    ln("  begin")
+    ln("    return ", r(ov2_ip), ";")
+    ln("  end function ", e(ov2_i), ";")
+    ln("  function ", d(ov2_b), " (", d(ov2_bp), " : bit) return integer is")
+    ln("  begin")
+    ln("    if ", r(ov2_bp), " = '1' then return 1; end if;")
+    ln("    return 0;")
+    ln("  end function ", e(ov2_b), ";")
+    ln("  function ", d(ov3_a), " (", d(ov3_aq), " : integer; ", d(ov3_ar), " : bit := '0') return integer is")
+    ln("  begin")
+    ln("    if ", r(ov3_ar), " = '1' then return ", r(ov3_aq), "; end if;")
+    ln("    return 0;")
+    ln("  end function ", e(ov3_a), ";")
+    ln("  function ", d(ov3_b), " (", d(ov3_bq), " : integer; ", d(ov3_br), " : integer) return integer is")
+    ln("  begin")
+    ln("    return ", r(ov3_bq), " + ", r(ov3_br), ";")
+    ln("  end function ", e(ov3_b), ";")
+    ln("  signal ", d(ov_si), " : integer;")
+    ln("  signal ", d(ov_sb), " : bit;")
     # aliases of every kind and attribute specifications that NAME an alias
     ln("  signal ", d(bus8), " : bit_vector(7 downto 0);")
     ln("  alias ", d(a_lo), " : bit_vector(3 downto 0) is ", r(bus8), "(3 downto 0);")
@@ -666,6 +719,18 @@ def gen_project(seed, idx, family=None):
        " + ", r(pa_f), "(2) + ", r(f_one), "(3);")
     ln("    if ", r(colsig), " = ", r(pa_lit), " or ", r(colsig), " = ", r(a_lit), " then null; end if;")
     ln("  end process ", e(pal), ";")
+    ln("  ", d(p_ov), " : process (", r(s1), ") is")
+    ln("    variable vi : integer;")
+    ln("    variable vb : bit;")
+    ln("  begin")
+    ln("    vi := ", r(ov_i), "(", r(ov_ip), " => 1);")                       # selected by the expected type
+    ln("    vb := ", r(ov_b), "(", r(ov_bp), SP, "=>", SP, "2);")
+    ln("    ", r(ov_si), " <= ", r(ov_i), "(", r(ov_ip), " => vi) + ", r(ov2_i), "(", r(ov2_ip), " => 3) + ", r(ov2_b), "(",
+       r(ov2_bp), " => ", r(s1), ");")                                          # selected by the actual types
+    ln("    ", r(ov_sb), " <= ", r(ov_b), "(", r(ov_bp), " => vi) or vb;")
+    ln("    vi := ", r(ov3_a), "(", r(ov3_aq), " => 1) + ", r(ov3_b), "(", r(ov3_bq), " => 1, ", r(ov3_br), " => 2) + ",
+       r(ov3_a), "(", r(ov3_aq), " => 2, ", r(ov3_ar), " => '1') + ", r(ov3_a), "(", r(ov3_ar), " => ", r(s1), ", ", r(ov3_aq), " => 4);")
+    ln("  end process ", e(p_ov), ";")
     ln("  ", d(c_inst2), " : ", r(comp), " port map (", r(cpa), " => ", r(a_al), ", ", r(cpb), " => open);")
     ln("  ", d(blk), " : block is")
     if with_blkmap:
